@@ -214,7 +214,22 @@ func first(b []byte) byte {
 	return b[0]
 }
 
+// unordered: reads the code under test issues in map-iteration order (the history pruner copies the
+// history entries of a block's state diff by ranging over the diff's maps). Their order is decided by
+// the Go runtime, so they are not scheduling points: they run inside the turn of the goroutine that
+// was released last.
+func unordered(key []byte) bool {
+	switch db.Bucket(first(key)) {
+	case db.DeprecatedContractStorageHistory, db.DeprecatedContractNonceHistory, db.DeprecatedContractClassHashHistory, db.Temporary:
+		return true
+	}
+	return false
+}
+
 func (d *sdb) read(name string, key []byte) bool {
+	if unordered(key) {
+		return true
+	}
 	return d.s.gate(opInfo{kind: opRead, name: name, bucket: first(key), key: hexs(key)})
 }
 
@@ -293,23 +308,25 @@ func (d *sdb) WithListener(db.EventListener) db.KeyValueStore {
 	return d
 }
 
+// digest identifies the content of a batch independently of the order in which its operations were
+// buffered (the history pruner fills its batches in map-iteration order).
 type digest struct{ sum uint64 }
 
 func newDigest() *digest { return &digest{sum: 0xcbf29ce484222325} }
 
-func (h *digest) bytes(b []byte) {
+func fnvBytes(h uint64, b []byte) uint64 {
 	for _, c := range b {
-		h.sum ^= uint64(c)
-		h.sum *= 0x100000001b3
+		h ^= uint64(c)
+		h *= 0x100000001b3
 	}
-	h.sum ^= 0xff
-	h.sum *= 0x100000001b3
+	h ^= 0xff
+	h *= 0x100000001b3
+	return h
 }
 
 func (h *digest) add(name string, k, v []byte) {
-	h.bytes([]byte(name))
-	h.bytes(k)
-	h.bytes(v)
+	x := fnvBytes(fnvBytes(fnvBytes(0xcbf29ce484222325, []byte(name)), k), v)
+	h.sum += x * 0x9e3779b97f4a7c15
 }
 
 // sbatch buffers writes on a real memory batch; only Write (the commit) and reads are scheduled.
